@@ -1,7 +1,7 @@
 (* C11 — Block/chunk framing round-trips every record at every offset.
    Only statements, each closed by [exact] of a lemma proved in proofs/, each followed by
    Print Assumptions.  [crc] is an arbitrary function with 32-bit results. *)
-From KV Require Import Bytes GenConsts Chunk BytesLemmas ChunkProofs FramingProofs FileProofs.
+From KV Require Import Bytes GenConsts Chunk BytesLemmas ChunkProofs FramingProofs FileProofs FileShift.
 Open Scope N_scope.
 
 Definition crc_ok (crc : bytes -> N) : Prop := forall b, crc b < 4294967296.
@@ -54,6 +54,23 @@ Theorem C11_flush_eq_singles :
     (bs1 ++ bs2, ps1 ++ ps2, bid2, bsz2).
 Proof. exact write_all_app. Qed.
 Print Assumptions C11_flush_eq_singles.
+
+(* The writer does not depend on how many whole blocks precede it: a data file found with k
+   blocks of content (k any natural number - 131072 blocks are 4 GiB) answers every history of
+   writes, flushes and reopens exactly as the empty file does, with every block id shifted by k,
+   the bytes appended being the same.  (The harness runs such histories on a file that begins
+   with a sparse region of 4, 8 or 12 GiB and compares them with the model run at offset 0;
+   reads at those positions are covered by C11_record_at_every_offset, which holds for any
+   prefix.) *)
+Theorem C11_whole_blocks_before_do_not_matter :
+  forall crc k pre fid ops, len pre = k * blockSize ->
+  df_run crc (df_open fid pre) ops =
+    (shift_df k pre (fst (df_run crc (df_open fid []) ops)),
+     shift_out k (snd (df_run crc (df_open fid []) ops))).
+Proof. exact df_run_far. Qed.
+Print Assumptions C11_whole_blocks_before_do_not_matter.
+Example C11_shift_nonvacuous : len (zeros 32768) = 1 * blockSize.
+Proof. reflexivity. Qed.
 
 (* The chunk decoder never panics, whatever bytes it is given. *)
 Theorem C11_decode_chunk_total :
